@@ -7,6 +7,8 @@
      bytes  what the helper returned (sysex helpers)          msgs   the messages returned (gm helpers)
      gok, gdata / sgok, sgdata   midi.Message.GetSysEx / smf.Message.GetSysEx on the result of midi.SysEx (midi.sysex only)
      pkind, pchan   a fresh mmc.Identity parsing the built bytes: "ok" | "error" | "panic", the channel it then holds
+                    (mmc.goto: a fresh mmc.GoTo parsing the built bytes; vals = device and time code it then holds)
+     bytes / msgs are read from what the helper returned only after ALL calls of the run have been made
      names, vals    gm.drumkeys: every DrumKey constant of the package and what its Key() method returns
    Judged with the operators of UniversalSysex: framing (F0, data bytes, F7) for every argument value, the pattern of
    the message (exact inside the domain), payload read back, channel read back, GM sequence and what a GM receiver
@@ -28,7 +30,9 @@ JudgeUx(e) ==
       all7 == raw \/ (Len(b) >= 2 /\ UxAll7(SubSeq(b, 2, Len(b) - 1)))
       accepted == typeOk /\ UxAccept(h, e.a, e.data, b)
       getOk == (h = "midi.sysex" /\ inDom) => (e.gok /\ e.gdata = e.data /\ e.sgok /\ e.sgdata = e.data)
-      parseOk == (h = "mmc.identity" /\ inDom) => (e.pkind = "ok" /\ e.pchan = e.a[1])
+      parseOk == /\ (h = "mmc.identity" /\ inDom) => (e.pkind = "ok" /\ e.pchan = e.a[1])
+                 \* a fresh mmc.GoTo parsing the built bytes holds the device and the five time code bytes the message was built from
+                 /\ (h = "mmc.goto" /\ inDom /\ accepted) => (e.pkind = "ok" /\ e.vals = e.a)
       \* a receiver's reading of the real bytes (second, independent route to the same verdict inside the domain)
       c == UxClass(b)
       readBack == (inDom /\ h # "midi.sysex" /\ accepted) => (c.ok /\ UxArgsOf(h, c) = e.a)
